@@ -15,7 +15,7 @@ RULE = ("Hypothesis-generated histories (<=12 ops) of style-consistent mutations
         "dict-declared: [k]=, update(mapping/pairs/kwargs), pop(k), pop(i), remove, clear, replace; refused mutations - absent object, index out of range, missing key, malformed update item - which must change and announce nothing; optionally all through one proxy object kept by the caller, optionally with an onlychanged=False watcher) interleaved with "
         "value assignments (check_on_set=False: non-members, for ListSelector also lists naming a new object twice, are added; histories continue on objects holding such an unlabelled entry), on the class-level Parameter or a per-instance copy; oracle = ordered (name, object) "
         "list model compared after every op. Non-trivial = >=3 mutations incl. a removal, or a value assignment "
-        "after a mutation; distinct = distinct case hash.")
+        "after a mutation; distinct = distinct case hash. Round 5: after every mutation each label that is not itself an object is probed as a value (must be refused).")
 ASSUMPTIONS = [
     "objects are unique and have unique str() (the property's 'unique objects'); most are hashable, three are not (two dicts "
     "with the same keys, a list)",
